@@ -553,6 +553,13 @@ func (w *world) do(o op) Sx {
 			path = filepath.Join(w.dir, "no-such-dir", "x.bin")
 		case "isdir":
 			path = w.dir
+		case "full":
+			// the file can be created but no byte can be written (ENOSPC): the fault arrives in the
+			// middle of Serialize, after os.Create has succeeded (round 5b)
+			path = "/dev/full"
+			if _, e := os.Stat(path); e != nil {
+				path = filepath.Join(w.dir, "no-such-dir", "x.bin")
+			}
 		}
 		var err error
 		msg, p := Catch(func() { err = w.allocs[a].Serialize(path) })
@@ -775,7 +782,7 @@ func (s *script) roundTrip(a int, rel int, disk bool, faults int) {
 	s.do("hib", "", a)
 	if !s.w.awake(a) && disk {
 		if r.Intn(4) == 0 {
-			s.do("ser", []string{"nodir", "isdir"}[r.Intn(2)], a)
+			s.do("ser", []string{"nodir", "isdir", "full", "full"}[r.Intn(4)], a)
 		}
 		res := s.do("ser", "", a)
 		if res.Tag() == "ok" {
@@ -896,6 +903,7 @@ func genBoundary(s *script, shape int, rel int, disk bool) {
 		s.do("hib", "", a)
 		if disk {
 			s.do("ser", "nodir", a)
+			s.do("ser", "full", a)
 			s.do("ser", "", a)
 			s.do("boot", "", a)
 			file := s.w.files[a]
